@@ -115,7 +115,7 @@ def own_mut(ctx: Ctx) -> None:
             at = cfg.node_of(n)
             fresh = isinstance(base, ast.Name) and recv is base and _fresh_receiver(fl, base, at, repo)
             if fresh:
-                ctx.ob(f, n, True, f"{how} `{unparse(recv, 30)}.{attr}` on an object constructed in this function", sel=f"own:{unparse(recv, 30)}.{attr}", nontrivial=False)
+                ctx.ob(f, n, True, f"{how} `{unparse(recv, 30)}.{attr}` on an object constructed in this function", sel=f"own:{ctx.anon(f, recv, 40)}.{attr}", nontrivial=False)
                 continue
             owners = sorted(fields[attr])
             ctx.ob(
@@ -124,7 +124,7 @@ def own_mut(ctx: Ctx) -> None:
                 False,
                 f"{how} `{unparse(recv, 40)}.{attr}` ({'/'.join(owners)} field) on an object that was not created here: "
                 "arrays already derived from it share this object, so their value / metadata changes after they were built",
-                sel=f"own:{unparse(recv, 40)}.{attr}",
+                sel=f"own:{ctx.anon(f, recv, 40)}.{attr}",
                 props=_own_props(attr),
             )
     ctx.need(n_stores >= 3, f"only {n_stores} stores to plan-object fields found")
